@@ -48,7 +48,23 @@ class Pool:
         """other representations of the same group element"""
         l = rng.below(Q - 2) + 2
         return [t2_translate(c), rescale(c, l), rescale(t2_translate(c), l)]
-    def pick(self, rng): return rng.choice(self.all)
+    def pick(self, rng):
+        """uniform over the pool, except that one pick in six is a representative family member that random choice would
+        almost never produce: either identity representative, rescaled (Z != 1), or the 2-torsion translate / a rescaling of a pool element"""
+        r = rng.below(18)
+        if r == 0: return T2REP
+        if r == 1: return rescale(T2REP, rng.below(Q - 2) + 2)
+        if r == 2: return rescale(IDENT, rng.below(Q - 2) + 2)
+        c = rng.choice(self.all)
+        if r == 3: return t2_translate(c)
+        if r == 4: return rescale(c, rng.below(Q - 2) + 2)
+        return c
+    def batches(self, rng):
+        """structured lists for the list-taking operations (sum, msm, normalize_batch, ...): both identity representatives,
+        also rescaled, at every position among points with Z != 1"""
+        d = (self.derived or self.base)[:4]; lam = rng.below(Q - 2) + 2
+        return [[T2REP] + d[:2], [d[0], rescale(T2REP, lam), d[1 % len(d)]], [IDENT] + d[:2], [d[0], rescale(IDENT, lam), d[1 % len(d)]], d[:2] + [T2REP],
+                [T2REP, IDENT, d[0]], [rescale(T2REP, lam)] + [rescale(c, lam) for c in d[:2]], [d[0], neg_pt(d[0])], [d[0], t2_translate(neg_pt(d[0])), d[1 % len(d)]]]
 
 def near_miss_strings(rng, valid_s, n_flip=24):
     """structured 32-byte strings: aliases s+q, q-s, bit flips, high-bit ORs, boundary values"""
